@@ -432,6 +432,150 @@ fn run_selfref(r: &mut Rng, k: u64, model: &mut model::Model, rep: &mut Report) 
     rep.case(&format!("selfref{} {}", k, db.log.join(";")), accepted > 0 && rejected > 0);
 }
 
+// ---------------------------------------------------------------------------------------------
+// referential actions inside transactions with savepoints
+// ---------------------------------------------------------------------------------------------
+
+fn bag3(db: &Db, with_gc: bool) -> Vec<Vec<String>> {
+    let mut v = vec![canon::bag_vec(&db.scan("PAR").unwrap_or_default()), canon::bag_vec(&db.scan("CH").unwrap_or_default())];
+    if with_gc {
+        v.push(canon::bag_vec(&db.scan("GC").unwrap_or_default()));
+    }
+    v
+}
+
+/// BEGIN … SAVEPOINT … <statements with referential actions> … ROLLBACK TO SAVEPOINT … [COMMIT | ROLLBACK],
+/// nested savepoints and RELEASE: no orphan after EVERY step, and after ROLLBACK TO s (ROLLBACK) the
+/// contents of all tables equal those at SAVEPOINT s (BEGIN)
+fn run_savepoint(r: &mut Rng, k: u64, fixed: Option<(usize, usize, usize, Vec<String>)>, rep: &mut Report) {
+    let (d1, u1, d2) = match &fixed { Some((a, b, c, _)) => (*a, *b, *c), None => (r.below(3) as usize, r.below(3) as usize, r.below(3) as usize) };
+    let with_gc = fixed.is_some() || r.chance(1, 2);
+    let mut db = Db::new();
+    db.must("CREATE TABLE PAR (ID INT PRIMARY KEY, V INT)");
+    db.must(&format!("CREATE TABLE CH (ID INT PRIMARY KEY, PID INT, FOREIGN KEY (PID) REFERENCES PAR (ID) ON DELETE {} ON UPDATE {})", ACTIONS[d1].0, ACTIONS[u1].0));
+    if with_gc {
+        db.must(&format!("CREATE TABLE GC (ID INT PRIMARY KEY, CID INT, FOREIGN KEY (CID) REFERENCES CH (ID) ON DELETE {} ON UPDATE {})", ACTIONS[d2].0, ACTIONS[(d2 + 1) % 3].0));
+    }
+    db.must("INSERT INTO PAR VALUES (1, 0), (2, 0), (3, 0), (4, 0)");
+    db.must("INSERT INTO CH VALUES (1, 1), (2, 1), (3, 2), (4, NULL), (5, 3)");
+    if with_gc {
+        db.must("INSERT INTO GC VALUES (1, 1), (2, 3), (3, NULL), (4, 5)");
+    }
+    rep.count(&format!("savepoint_on_delete_{}_on_update_{}", ACTIONS[d1].1, ACTIONS[u1].1));
+    let dml = |r: &mut Rng| -> String {
+        match r.below(9) {
+            0 => format!("DELETE FROM PAR WHERE ID = {}", r.range(1, 5)),
+            1 => format!("DELETE FROM PAR WHERE ID >= {}", r.range(2, 4)),
+            2 | 3 => format!("UPDATE PAR SET ID = {} WHERE ID = {}", r.range(5, 9), r.range(1, 4)),
+            4 => format!("UPDATE CH SET ID = {} WHERE ID = {}", r.range(6, 9), r.range(1, 5)),
+            5 => format!("UPDATE CH SET PID = {} WHERE ID = {}", r.range(1, 5), r.range(1, 5)),
+            6 => format!("INSERT INTO CH VALUES ({}, {})", r.range(6, 12), r.range(1, 5)),
+            7 => format!("INSERT INTO PAR VALUES ({}, 1)", r.range(5, 9)),
+            _ => format!("DELETE FROM CH WHERE ID = {}", r.range(1, 5)),
+        }
+    };
+    let script: Vec<String> = match &fixed {
+        Some((_, _, _, s)) => s.clone(),
+        None => {
+            let mut s = vec!["BEGIN".to_string()];
+            if r.chance(1, 2) {
+                s.push(dml(r));
+            }
+            s.push("SAVEPOINT S1".into());
+            for _ in 0..(1 + r.below(3)) {
+                s.push(dml(r));
+            }
+            if r.chance(1, 2) {
+                s.push("SAVEPOINT S2".into());
+                for _ in 0..(1 + r.below(2)) {
+                    s.push(dml(r));
+                }
+                s.push(if r.chance(2, 3) { "ROLLBACK TO SAVEPOINT S2" } else { "RELEASE SAVEPOINT S2" }.into());
+                if r.chance(1, 2) {
+                    s.push(dml(r));
+                }
+            }
+            s.push("ROLLBACK TO SAVEPOINT S1".into());
+            if r.chance(1, 2) {
+                s.push(dml(r));
+                if r.chance(1, 2) {
+                    s.push("ROLLBACK TO SAVEPOINT S1".into());
+                }
+            }
+            s.push(if r.chance(1, 2) { "COMMIT" } else { "ROLLBACK" }.into());
+            s
+        }
+    };
+    let mut marks: std::collections::HashMap<String, Vec<Vec<String>>> = Default::default();
+    let mut nontrivial = false;
+    for sql in &script {
+        let w: Vec<&str> = sql.split_whitespace().collect();
+        let before = bag3(&db, with_gc);
+        if w[0] == "BEGIN" {
+            marks.insert("BEGIN".into(), before.clone());
+        }
+        if w[0] == "SAVEPOINT" {
+            marks.insert(w[1].to_string(), before.clone());
+        }
+        let out = db.exec(sql);
+        let after = bag3(&db, with_gc);
+        rep.count(&format!("savepoint_step_{}", if w[0] == "ROLLBACK" && w.len() > 1 { "rollback_to" } else { w[0] }.to_lowercase()));
+        let mut bad: Vec<String> = orphans(&db.scan("CH").unwrap_or_default(), 1, db.scan("PAR").as_ref(), 0).into_iter().map(|x| format!("CH{} has no PAR row", x)).collect();
+        if with_gc {
+            bad.extend(orphans(&db.scan("GC").unwrap_or_default(), 1, db.scan("CH").as_ref(), 0).into_iter().map(|x| format!("GC{} has no CH row", x)));
+        }
+        if out.is_panic() || !bad.is_empty() {
+            rep.fail(FailKind::Oracle, None, &format!("orphan row after `{}` inside a transaction with savepoints", if w[0] == "ROLLBACK" && w.len() > 1 { "ROLLBACK TO SAVEPOINT" } else { w[0] }),
+                &format!("{}\n=> {}\norphans: {:?}", db.log.join(";\n"), out.brief(), bad));
+            break;
+        }
+        if out.is_err() && w[0] != "BEGIN" && before != after && (w[0] == "INSERT" || w[0] == "UPDATE") {
+            // (failing DELETE with cascades is the recorded C11 finding; not judged here)
+            rep.fail(FailKind::Oracle, None, "tables changed by a failing statement inside a transaction", &format!("{}\n=> {}", db.log.join(";\n"), out.brief()));
+            break;
+        }
+        let expect = if w[0] == "ROLLBACK" && w.len() > 1 { marks.get(w[3]) } else if w[0] == "ROLLBACK" { marks.get("BEGIN") } else { None };
+        if let Some(exp) = expect {
+            if out.is_ok() {
+                nontrivial = nontrivial || before != after;
+                if &after != exp {
+                    rep.fail(FailKind::Oracle, None, &format!("after `{}` the tables differ from their contents at the savepoint / BEGIN", if w.len() > 1 { "ROLLBACK TO SAVEPOINT" } else { "ROLLBACK" }),
+                        &format!("{}\nexpected {:?}\nfound    {:?}", db.log.join(";\n"), exp, after));
+                    break;
+                }
+            }
+        }
+    }
+    rep.case(&format!("savepoint{} {}", k, db.log.join(";")), nontrivial);
+}
+
+fn savepoint_probes(rep: &mut Report) {
+    let mut r = Rng::new(11);
+    let mut k = 800000;
+    for d1 in 0..3 {
+        for u1 in 0..3 {
+            for d2 in 0..3 {
+                for body in [
+                    vec!["UPDATE PAR SET ID = 10 WHERE ID = 1"],
+                    vec!["DELETE FROM PAR WHERE ID = 1"],
+                    vec!["DELETE FROM PAR WHERE ID >= 1"],
+                    vec!["UPDATE PAR SET ID = 10 WHERE ID = 1", "DELETE FROM PAR WHERE ID = 2", "UPDATE CH SET ID = 30 WHERE ID = 3"],
+                ] {
+                    let mut s = vec!["BEGIN".to_string(), "SAVEPOINT S1".into()];
+                    s.extend(body.iter().map(|x| x.to_string()));
+                    s.push("ROLLBACK TO SAVEPOINT S1".into());
+                    s.push("DELETE FROM PAR WHERE ID = 1".into());
+                    s.push("ROLLBACK TO SAVEPOINT S1".into());
+                    s.push("COMMIT".into());
+                    run_savepoint(&mut r, k, Some((d1, u1, d2, s)), rep);
+                    rep.count("savepoint_probes");
+                    k += 1;
+                }
+            }
+        }
+    }
+}
+
 fn self_ref_db() -> Db {
     let mut db = Db::new();
     db.must("CREATE TABLE T (ID INT PRIMARY KEY, PID INT)");
@@ -607,6 +751,12 @@ fn main() {
     if std::env::args().any(|a| a == "--cycle-worker") {
         cycle_worker();
     }
+    // the engine frees a large top-of-heap buffer per query; keep glibc from returning it to the kernel
+    // every time (brk thrash made the quick tier many times slower under load)
+    unsafe {
+        libc::mallopt(libc::M_TRIM_THRESHOLD, 1 << 30);
+        libc::mallopt(libc::M_TOP_PAD, 64 << 20);
+    }
     let args = Args::parse("C12");
     engine::silence_panics();
     let mut rep = Report::new(&args, "history with at least one accepted and one rejected statement on tables linked by foreign keys");
@@ -615,6 +765,11 @@ fn main() {
     probes(&mut model, &mut rep);
     cycle_probe(&mut rep);
     junction_probes(&mut model, &mut rep);
+    savepoint_probes(&mut rep);
+    for k in 0..args.n(5000, 100000) {
+        let mut r = rng.fork();
+        run_savepoint(&mut r, k, None, &mut rep);
+    }
     for k in 0..args.n(20000, 400000) {
         let mut r = rng.fork();
         run_history(&mut r, k, &mut model, &mut rep);
